@@ -1,5 +1,5 @@
 (** Laws of the probing pipeline (C17). *)
-From Coq Require Import List ZArith NArith Bool String Ascii Lia.
+From Coq Require Import List ZArith NArith Bool String Ascii Lia Permutation.
 From PKO Require Import Util Json Probe.
 Import ListNotations.
 Local Open Scope string_scope.
@@ -554,6 +554,31 @@ Section Proofs.
   Theorem parse_total qs :
     (forall q, In q qs -> cel_leaves_ok (o_probes q) /\ selector_ok q = true) -> exists p, parse qs = inr p.
   Proof. intros H. unfold parse. destruct (parse_groups_ok qs 0%N H) as [gs ->]. now eexists. Qed.
+  (** Algebra of the conjunction (corollaries of [probe_conj_b] / [all_failures_reported]):
+      concatenating probe lists conjoins the flags and concatenates the reports, the flag does not
+      depend on the order of the ObjectSetProbes, and adding probes can only fail more objects. *)
+  Theorem probe_app qs1 qs2 p1 p2 p o :
+    parse qs1 = inr p1 -> parse qs2 = inr p2 -> parse (qs1 ++ qs2) = inr p ->
+    fst (p o) = fst (p1 o) && fst (p2 o) /\ snd (p o) = snd (p1 o) ++ snd (p2 o).
+  Proof.
+    intros H1 H2 H. split.
+    - rewrite (probe_conj_b _ _ o H1), (probe_conj_b _ _ o H2), (probe_conj_b _ _ o H). apply forallb_app.
+    - rewrite (all_failures_reported _ _ o H1), (all_failures_reported _ _ o H2), (all_failures_reported _ _ o H).
+      apply flat_map_app.
+  Qed.
+
+  Theorem probe_perm qs qs' p p' o :
+    Permutation qs qs' -> parse qs = inr p -> parse qs' = inr p' -> fst (p o) = fst (p' o).
+  Proof.
+    intros HP H H'. apply eq_true_iff_eq. rewrite (probe_conj _ _ o H), (probe_conj _ _ o H').
+    split; intros HA q Hq; apply HA; [apply Permutation_sym in HP|]; eapply Permutation_in; eauto.
+  Qed.
+
+  Theorem probe_mono qs qs' p p' o :
+    incl qs qs' -> parse qs = inr p -> parse qs' = inr p' -> fst (p' o) = true -> fst (p o) = true.
+  Proof.
+    intros HI H H'. rewrite (probe_conj _ _ o H), (probe_conj _ _ o H'). intros HA q Hq. apply HA. now apply HI.
+  Qed.
 End Proofs.
 
 (** ** History: before fix 9b2e4f3 the condition probe had no pre-scan ([condition_probe_v0]):
